@@ -1430,4 +1430,29 @@ theorem region_count_eq (axes : List (Nat × Nat × Nat × Nat))
   obtain ⟨h1, h2, h3, h4⟩ := h a ha
   rw [h2]; exact axisBlocks_eq_region h1 h3 h4
 
+/-! ## Locating a step in a run -/
+
+/-- an observed read comes from a read step -/
+theorem read_label_of_obs {ls : List Label} {a : Nat} (h : Obs.read a ∈ obsBody ls) :
+    ∃ l1 o t l2, ls = l1 ++ Label.read o t a :: l2 := by
+  obtain ⟨l, hl, hemit⟩ := List.mem_flatMap.1 h
+  obtain ⟨l1, l2, rfl⟩ := List.append_of_mem hl
+  cases l with
+  | openGen g => simp [emit] at hemit
+  | launch o t => simp [emit] at hemit
+  | finish o t => simp [emit] at hemit
+  | closeGen g => simp [emit] at hemit
+  | read o t a' => simp [emit] at hemit; subst hemit; exact ⟨l1, o, t, l2, rfl⟩
+  | write o t a' => simp [emit] at hemit
+  | create t a' => simp [emit] at hemit
+
+/-- … taken in some reachable state of the run -/
+theorem read_step_of_obs {s0 s : St} {ls : List Label} {a : Nat} (hr : Run d allow s0 ls s)
+    (h : Obs.read a ∈ obsBody ls) :
+    ∃ l1 s1 s1' o t l2, Run d allow s0 l1 s1 ∧ Step d allow s1 (.read o t a) s1' ∧ Run d allow s1' l2 s := by
+  obtain ⟨l1, o, t, l2, rfl⟩ := read_label_of_obs h
+  obtain ⟨s1, h1, h2⟩ := Run.split hr
+  cases h2 with
+  | cons hs hrest => exact ⟨l1, s1, _, o, t, l2, h1, hs, hrest⟩
+
 end Cubed.Sched
